@@ -235,8 +235,25 @@ pub fn main(args: &[String]) {
             let inputs: Vec<String> = serde_json::from_str(&std::fs::read_to_string(path).expect("read")).expect("json");
             let mut scratch = Vec::new();
             for i in &inputs {
-                println!("{:016x}", input_digest(i, strip, &mut scratch));
+                // (prefixed: the lexer's own debug diagnostics also go to stdout)
+                println!("D:{:016x}", input_digest(i, strip, &mut scratch));
             }
+        }
+        "scale-inputs" => {
+            // a fixed list (the same in every build) of long inputs: every core atom x 300 and the
+            // scale words x {257, 4100}, bare and closed; plus all generated programs of depth 2
+            let mut v: Vec<String> = Vec::new();
+            for a in spaces::s9_core() {
+                v.push(a.repeat(300));
+            }
+            for w in crate::props::SCALE_WORDS {
+                for k in [40usize, 41, 257, 4100] {
+                    v.push(w.repeat(k));
+                    v.push(format!("{}{}", w.repeat(k), ";\n)'\";\n"));
+                }
+            }
+            v.extend(crate::grammar::programs(2, true));
+            println!("{}", serde_json::to_string(&v).unwrap());
         }
         "history-inputs" => {
             let n: usize = arg_value(args, "--count").and_then(|s| s.parse().ok()).unwrap_or(200);
